@@ -191,6 +191,10 @@ class C11(PropBase):
             "class VwTreeNS:\n    @dataclasses.dataclass\n    class VwNode:\n        v: int\n"
             "        kids: 'list[VwNodeId]' = dataclasses.field(default_factory=list)\n        nxt: 'VwNodeAl | None' = None\n"
             "VwNodeId = typing.NewType('VwNodeId', VwTreeNS.VwNode)\nVwNodeAl = typing.TypeAliasType('VwNodeAl', VwNodeId)\n")})
+        # a class whose name was bound to another class later in the module: its qualified name leads elsewhere
+        world["modules"][0]["decls"].append({"d": "raw", "n": "VwMoneyOld", "src": (
+            "@dataclasses.dataclass\nclass VwMoney:\n    amount: int\nVwMoneyOld = VwMoney\n"
+            "@dataclasses.dataclass\nclass VwMoney:\n    amount: float\n    currency: str = 'EUR'\n")})
         # a class kept on a namespace class (its qualified name has two parts below the module)
         world["modules"][0]["decls"].append({"d": "raw", "n": "VwCanvas", "src": "class VwCanvas:\n    @dataclasses.dataclass\n    class VwPoint:\n        a: int\n        b: int = 0\n"})
         # the second module knows the first under a name that is also a loaded top-level module's
@@ -233,9 +237,15 @@ class C11(PropBase):
                 base = {"k": "int"}
             home = rng.choice(mods) if not any(n["k"] == "ref" for n in model.twalk(base)) else _home_of(base, mods)
             pos = rng.choice(POSITIONS)
+            rebound = rng.random() < 0.2
+            if rebound:
+                base, home, pos = {"k": "raw", "src": "VwMoneyOld"}, mods[0], "field"
             home_decls = next(m for m in world["modules"] if m["name"] == home)["decls"]
             wrapped, chain = build_chain(rng, base, home, counter, home_decls, pos, xdecls=world["modules"][-1]["decls"])
-            pairs = [gen.gen_pair(rng, base, lk, cfg) for _ in range(2)]
+            if rebound:
+                pairs = [({"$obj": f"{mods[0]}.VwMoneyOld", "f": {"amount": a_}}, {"$dict": [["amount", str(a_)]]}) for a_ in (10, 12)]
+            else:
+                pairs = [gen.gen_pair(rng, base, lk, cfg) for _ in range(2)]
             case = {"base": base, "wrapped": wrapped, "chain": chain, "pos": pos, "home": home, "pairs": pairs}
             if pos == "field":
                 counter[0] += 1
@@ -244,7 +254,7 @@ class C11(PropBase):
                 fw = {"n": "f", "t": wrapped}
                 # in half of the holders the bare type is met first (field e), so the wrapped field is a
                 # *revisit* of a type the graph already knows
-                lead = [{"n": "e", "t": copy.deepcopy(base)}] if rng.random() < 0.5 else []
+                lead = [{"n": "e", "t": copy.deepcopy(base)}] if rng.random() < 0.5 or rebound else []
                 home_decls.append({"d": "dataclass", "n": hb, "fields": lead + [fb, {"n": "z", "t": {"k": "int"}, "default": 0}], "flags": {}})
                 home_decls.append({"d": "dataclass", "n": hw, "fields": copy.deepcopy(lead) + [fw, {"n": "z", "t": {"k": "int"}, "default": 0}], "flags": {}, "resolve_refs_in": home})
                 case["holders"] = [hb, hw]
